@@ -118,6 +118,8 @@ def _swap_initializer(text: str) -> Tuple[str, int]:
                     continue
                 if bits not in (1, 8):
                     raise Unsupported(f"global initializer with i{bits}")
+            if re.match(r"i(16|32|64) (ptrtoint|add|sub|mul|shl|lshr|and|or|xor|trunc|zext|sext|select)\b", text[i:]):
+                raise Unsupported("global initializer computes an integer from a constant expression: " + text[i:i + 60])
         if depth_expr == 0 and re.match(r"(float|double) [-0-9x]", text[i:]):
             raise Unsupported("floating point constant in a global initializer")
         out.append(ch)
@@ -240,3 +242,47 @@ def build_emulated(sources: List[str], exe: str, include_dirs: List[str], extra_
         except OSError:
             pass
     return total
+
+
+SELFTEST_C = r"""
+#include <stdio.h>
+#include <stdint.h>
+#include <string.h>
+struct S { uint16_t a; uint32_t b; const char *name; int64_t c; };
+static const struct S TAB[2] = { {0x0102, 0x03040506, "x", -2}, {1, 2, "y", 3} };
+int main(void) {
+  uint32_t x = 0x01020304; uint8_t *p = (uint8_t *)&x;
+  uint8_t buf[8]; memset(buf, 0, 8);
+  *(uint32_t *)(buf + 1) = 0xAABBCCDD;
+  uint64_t v = 0x1122334455667788ULL; uint16_t h; memcpy(&h, &v, 2);
+  const uint8_t *q = (const uint8_t *)&TAB[0];
+  int be = 0;
+#if defined(__BYTE_ORDER__) && __BYTE_ORDER__ == __ORDER_BIG_ENDIAN__
+  be = 1;
+#endif
+  printf("%d %d %d %d | %x %x | %x | %x %x %x %x %lld %s | %d\n", p[0], p[1], p[2], p[3], buf[1], buf[4], h, q[0], q[1], q[4], q[7], (long long)TAB[0].c, TAB[1].name, be);
+  return 0;
+}
+"""
+SELFTEST_EXPECT = "1 2 3 4 | aa dd | 1122 | 1 2 3 6 -2 y | 1"
+
+
+def selftest(workdir: str) -> str:
+    """'' when a small program observes big-endian memory images under the emulation (scalar bytes, unaligned word store, memcpy of the
+    leading bytes of a wider value, a constant table, the detection macro); otherwise what went wrong."""
+    src = os.path.join(workdir, "beemu_selftest.c")
+    exe = os.path.join(workdir, "beemu_selftest")
+    with open(src, "w") as fh:
+        fh.write(SELFTEST_C)
+    try:
+        build_emulated([src], exe, [], [], "-O1", workdir=workdir)
+        out = subprocess.run([exe], capture_output=True, text=True, timeout=30).stdout.strip()
+    except Exception as e:  # noqa: BLE001 - anything here means the monitor cannot be trusted
+        return f"{type(e).__name__}: {e}"[:400]
+    finally:
+        for f in (src, exe):
+            try:
+                os.remove(f)
+            except OSError:
+                pass
+    return "" if out == SELFTEST_EXPECT else f"self-test program printed {out!r}, expected {SELFTEST_EXPECT!r}"
